@@ -100,7 +100,10 @@ class Module:
         params = list(self._parameters.values())
         for m in self.submodules():
             params += m.parameters()
-        return params
+        # a parameter (or submodule) shared between several parents is reported once, at its first position
+        seen = set()
+        unique = [p for p in params if not (id(p) in seen or seen.add(id(p)))]
+        return unique
     
     def submodules(self) -> list['Module']:
         return [m for m in self._submodules.values()]
